@@ -1,7 +1,53 @@
 (* C08 — theorems.  Every name here is checked with Print Assumptions (no axioms). *)
 From GixV.Base Require Import Bytes Outcome.
-From GixV.C08 Require Import Model Spec ProofsLru.
+From GixV.C08 Require Import Model Spec ProofsLru ProofsBuf ProofsDecode ProofsSeq.
 Local Open Scope N_scope.
+
+(* ---- decoding is exact whatever the cache --------------------------------------------------------- *)
+
+(* For EVERY cache implementation (type C, get, put) that obeys the cache contract — there is a family
+   of invariants "every stored value satisfies P for its key" kept by get and put, get only returns
+   values satisfying P for the requested key, put does not panic — every pack p, every state of the
+   caller's output buffer, every entry i that denotes an object (Spec.object_of: git's unpack_entry /
+   patch_delta semantics): if the cache is coherent with p, File::decode_entry (chain walk with the cache
+   shortcut, both passes over the [source][target][instructions] buffer, the odd/even swap, the final
+   copy and truncate, cache.put) returns exactly that object and its kind, reports the compressed size of
+   the requested entry, and leaves the cache coherent. *)
+Theorem decode_exact : forall C cget cput cinv, cache_contract C cget cput cinv ->
+  forall p c out i kind obj,
+  cinv (Coh p) c -> object_of p i = Some (kind, obj) ->
+  exists c' r, decode_entry C cget cput p (c, out) i = Ok (c', obj, r) /\
+               cinv (Coh p) c' /\ r_kind r = kind /\ r_compressed r = i.
+Proof. exact decode_exact_any. Qed.
+
+(* ... lifted to every request sequence (any order, any repetition) over one cache and one buffer *)
+Theorem decode_sequence_exact : forall C cget cput cinv, cache_contract C cget cput cinv ->
+  forall p reqs c out objs,
+  cinv (Coh p) c -> map (object_of p) reqs = map Some objs ->
+  exists c', run_seq C cget cput p (c, out) reqs = Ok (objs, c') /\ cinv (Coh p) c'.
+Proof. exact decode_sequence_any. Qed.
+
+(* Never, StaticLinkedList<SIZE> (any SIZE >= 1, any memory limit) and MemoryCappedHashmap (any capacity)
+   obey the contract in debug and release builds, and start coherent with every pack *)
+Theorem delta_caches_refine_contract : forall bd, cache_contract cache cache_get (cache_put bd) cache_inv.
+Proof. exact concrete_contract. Qed.
+
+Theorem fresh_caches_coherent : forall P,
+  cache_inv P CNever /\
+  (forall size limit, 1 <= size -> cache_inv P (CStatic (slru_new size limit))) /\
+  (forall cap extra, cache_inv P (CMem (mcache_new cap extra))).
+Proof. intros P. split; [apply new_never_inv | split; [apply new_static_inv | apply new_mem_inv]]. Qed.
+
+(* gix_odb::Cache::try_find_cached: an object cache (MemoryCappedHashmap keyed by object) in front of the
+   pack lookup returns the same exact object, with or without delta cache, and stays coherent *)
+Theorem find_cached_exact : forall C cget cput cinv, cache_contract C cget cput cinv ->
+  forall p oc c out i kind obj,
+  oc_inv p oc -> cinv (Coh p) c -> object_of p i = Some (kind, obj) ->
+  exists oc' c', find_cached C cget cput p (oc, c, out) i = Ok (oc', c', obj, kind) /\
+                 oc_inv p oc' /\ cinv (Coh p) c'.
+Proof. exact find_cached_exact_any. Qed.
+
+(* ---- the static LRU's memory accounting ------------------------------------------------------------ *)
 
 (* StaticLinkedList<SIZE>::new(limit) followed by ANY sequence of put/get, debug or release build:
    no step panics (the usize subtractions never underflow), mem_used is exactly the sum of the
@@ -12,26 +58,10 @@ Theorem static_lru_mem_invariant : forall bd size limit ops, 1 <= size ->
             s_used s = caps (s_inner s) + s_fcap s /\
             s_used s <= s_limit s + 7 /\
             count (s_inner s) <= size.
-Proof.
-  intros bd size limit ops Hs.
-  destruct (static_lru_mem_invariant_all bd size limit ops Hs) as (s & E & I).
-  exists s. split; [exact E|]. destruct I. repeat split; try assumption.
-  assert (Z : forall ops s0 s1, run_ops bd s0 ops = Ok s1 -> sinv s0 -> s_size s1 = s_size s0).
-  { clear. induction ops as [|[k d kind csz|k] r IH]; intros s0 s1 H I0; cbn [run_ops] in H.
-    - injection H as <-. reflexivity.
-    - destruct (slru_put_inv (fun _ _ => True) bd s0 k d kind csz I0) as (s' & E' & I' & _ & _ & S');
-        [apply Forall_forall; intros; exact Logic.I | exact Logic.I |].
-      rewrite E' in H. cbn [obind] in H. rewrite (IH _ _ H I'). exact S'.
-    - destruct (slru_get s0 k) as [s' h] eqn:G. cbn [fst] in H.
-      destruct (slru_get_inv (fun _ _ => True) s0 k s' h I0) as (I' & _ & _ & _ & S');
-        [apply Forall_forall; intros; exact Logic.I | exact G |].
-      rewrite (IH _ _ H I'). exact S'. }
-  rewrite (Z _ _ _ E (sinv_new size limit Hs)) in si_count. exact si_count.
-Qed.
+Proof. exact static_lru_mem_invariant_lemma. Qed.
 
-(* the cache contract, for each of the delta caches behind `dyn DecodeEntry` (Never, StaticLinkedList,
-   MemoryCappedHashmap) and any predicate P on (key, value): if every value put satisfied P for its
-   key, whatever get returns satisfies P for the requested key — and put never panics. *)
+(* the cache contract spelled out for the delta caches: whatever get returns satisfies P when every
+   value put did; put never panics *)
 Theorem delta_caches_get_contract : forall P c k c' r,
   cache_inv P c -> cache_get c k = (c', r) -> cache_inv P c' /\ (forall h, r = Some h -> P k h).
 Proof. exact cache_get_contract. Qed.
@@ -41,19 +71,36 @@ Theorem delta_caches_put_contract : forall P bd c k d kind csz,
   exists c', cache_put bd c k d kind csz = Ok c' /\ cache_inv P c'.
 Proof. exact cache_put_contract. Qed.
 
-(* the object cache (MemoryCappedHashmap over clru, weight = len + 52) obeys the same contract *)
-Theorem object_cache_contract : forall P m k d kind m' r,
-  entries_ok P (m_list m) ->
-  (P k (kind, 0, d) -> entries_ok P (m_list (mcache_put m k d kind 0))) /\
-  (mcache_get m k = (m', r) -> entries_ok P (m_list m') /\ (forall h, r = Some h -> P k h)).
-Proof.
-  intros P m k d kind m' r F. split.
-  - intros Hk. apply mcache_put_inv; assumption.
-  - intros G. eapply mcache_get_inv; eassumption.
-Qed.
+(* the object cache (MemoryCappedHashmap over clru, weight = len + 52) *)
+Theorem object_cache_put_contract : forall P m k d kind,
+  entries_ok P (m_list m) -> P k (kind, 0, d) -> entries_ok P (m_list (mcache_put m k d kind 0)).
+Proof. intros P m k d kind. apply mcache_put_inv. Qed.
 
-(* non-vacuity: the witness of the defect fixed in /repo (ten 1-byte puts, one 20-byte put, two
-   1-byte puts, limit 100) now runs without panic and ends with exact accounting *)
+Theorem object_cache_get_contract : forall P m k m' r,
+  entries_ok P (m_list m) -> mcache_get m k = (m', r) ->
+  entries_ok P (m_list m') /\ (forall h, r = Some h -> P k h).
+Proof. exact mcache_get_inv. Qed.
+
+(* ---- buffer layout, separately -------------------------------------------------------------------- *)
+
+(* the apply loop over [source][target][instructions]: for deltas d1..dk that git's patch_delta accepts in
+   sequence from the object at the front of the source buffer, buffers of any size M >= every size in the
+   chain, the result ends up at the front of the first buffer for even k and of the second for odd k *)
+Theorem apply_loop_layout : forall ds cur obj M P R first second (odd : bool) junk,
+  replay cur ds = Some obj ->
+  Forall (fun d => bsz d <= N.of_nat M /\ rsz d <= N.of_nat M) ds ->
+  length first = M -> length second = M ->
+  (if odd then second else first) = cur ++ junk ->
+  exists f' s' junk',
+    apply_chain first second (P ++ concat ds ++ R) odd (infos_of (length P) ds) = Ok (f', s') /\
+    length f' = M /\ length s' = M /\
+    (if xorb odd (Nat.odd (length ds)) then s' else f') = obj ++ junk'.
+Proof. exact apply_chain_spec. Qed.
+
+(* ---- examples (non-vacuity) ------------------------------------------------------------------------ *)
+
+(* the witness of the defect fixed in /repo (ten 1-byte puts, one 20-byte put, two 1-byte puts,
+   limit 100) runs without panic and ends with exact accounting *)
 Example static_lru_witness :
   let one := Put 0 [x00] 3 1 in
   let big := Put 0 (repeat x00 20) 3 1 in
@@ -69,4 +116,31 @@ Example static_lru_tiny_limit :
   | Ok s => s_used s = 8
   | _ => False
   end.
+Proof. vm_compute. reflexivity. Qed.
+
+(* a pack: blob "abc", a delta on it ("abcabc"), a delta on that ("bc") and one with an out-of-pack base *)
+Definition ex_pack : pack :=
+  [ {| pe_kind := EBase 3; pe_data := bs "abc" |};
+    {| pe_kind := EDelta 0; pe_data := [x03; x06; x90; x03; x90; x03] |};
+    {| pe_kind := EDelta 1; pe_data := [x06; x02; x91; x01; x02] |};
+    {| pe_kind := EExt 1 (bs "xyz"); pe_data := [x03; x04; x90; x03; x01; x21] |} ].
+
+Example ex_pack_objects :
+  map (object_of ex_pack) [0; 1; 2; 3] =
+  [Some (3, bs "abc"); Some (3, bs "abcabc"); Some (3, bs "bc"); Some (1, bs "xyz!")].
+Proof. vm_compute. reflexivity. Qed.
+
+(* the hypotheses of decode_sequence_exact are satisfiable: a request sequence with repetitions against a
+   2-entry static LRU with a 100-byte limit *)
+Example ex_sequence :
+  match run_seq cache cache_get (cache_put Debug) ex_pack (CStatic (slru_new 2 100), bs "junk") [2; 1; 2; 3; 0; 2] with
+  | Ok (objs, _) => map snd objs = [bs "bc"; bs "abcabc"; bs "bc"; bs "xyz!"; bs "abc"; bs "bc"]
+  | _ => False
+  end.
+Proof. vm_compute. reflexivity. Qed.
+
+(* outside the theorem's hypotheses: a delta with both sizes 0 on an empty out-of-pack base (git cannot
+   write it) panics in the 'rescue' step of resolve_deltas *)
+Example decode_empty_delta_panics :
+  decode_entry cache cache_get (cache_put Debug) [ {| pe_kind := EExt 3 []; pe_data := [x00; x00] |} ] (CNever, []) 0 = Panic.
 Proof. vm_compute. reflexivity. Qed.
